@@ -9,6 +9,7 @@ package checks
 // carry the newly assigned ids), balances and stores.
 
 import (
+	"bytes"
 	"encoding/binary"
 	"encoding/json"
 	"fmt"
@@ -21,7 +22,9 @@ import (
 
 	"pgregory.net/rapid"
 
+	collectortypes "github.com/comdex-official/comdex/x/collector/types"
 	"verif/dump"
+
 	"verif/rec"
 	"verif/world"
 )
@@ -39,6 +42,9 @@ type c20Case struct {
 	Ld     *ldCase `json:"lend,omitempty"`
 	LdCont []ldOp  `json:"lend_continuation,omitempty"`
 }
+
+// id counters without a genesis field: "store/counter key prefix" -> key prefix of the records the ids belong to
+var c20IDCounters = map[string]byte{"vaultV1/15": 0x10, "vaultV1/16": 0x14, "lockerV1/17": 0x15, "lendV2/16": 0x15, "lendV2/25": 0x26}
 
 func c20Diff(t rec.TB, r *rec.Rec, cs *c20Case, a, b dump.State, when string) (hit map[string]bool) {
 	hit = map[string]bool{}
@@ -74,17 +80,13 @@ func c20Diff(t rec.TB, r *rec.Rec, cs *c20Case, a, b dump.State, when string) (h
 				ctx += "-no-locker-left"
 			}
 		}
-		if ch.Store == "vaultV1" && (p == "15" || p == "16") && kind == "changed" {
-			// the vault / stable-mint vault id counters: the genesis format has no field for them, InitGenesis restarts
-			// them at the highest id among the exported vaults of that kind (finding C20-F4 when a higher-numbered vault
-			// had been closed); any other value after the import is something else
-			prefix := byte(0x10)
-			if p == "16" {
-				prefix = 0x14
-			}
+		if rp, ok := c20IDCounters[ch.Store+"/"+p]; ok && kind == "changed" {
+			// an id counter for which the genesis format has no field: InitGenesis restarts it at the highest id among
+			// the exported records of that kind (findings C20-F4, F6, F7: the counter falls back when the highest-numbered
+			// record had been removed); any other value after the import is something else
 			var maxLive uint64
 			for _, kv := range a {
-				if kv.Store == "vaultV1" && len(kv.Key) == 9 && kv.Key[0] == prefix {
+				if kv.Store == ch.Store && len(kv.Key) == 9 && kv.Key[0] == rp {
 					if id := binary.BigEndian.Uint64(kv.Key[1:]); id > maxLive {
 						maxLive = id
 					}
@@ -96,6 +98,19 @@ func c20Diff(t rec.TB, r *rec.Rec, cs *c20Case, a, b dump.State, when string) (h
 			}
 			if got == maxLive {
 				ctx += "-to-highest-live-id"
+			}
+		}
+		if ch.Store == "collectorV1" && p == "01" && kind == "changed" {
+			// finding C20-F3: the import rebuilds a lookup-table record without its block height and block time; a record
+			// that differs in anything else is something else
+			var ra, rb collectortypes.CollectorLookupTableData
+			if ra.Unmarshal(ch.A) == nil && rb.Unmarshal(ch.B) == nil {
+				ra.BlockHeight, ra.BlockTime = rb.BlockHeight, rb.BlockTime
+				x, _ := ra.Marshal()
+				y, _ := rb.Marshal()
+				if bytes.Equal(x, y) {
+					ctx += "-block-height-and-time-only"
+				}
 			}
 		}
 		if seen[ctx] {
